@@ -282,6 +282,23 @@ def run_tier_a(prop: str, harnesses, jobs: int = 0):
                         "time_s": round(v.time_s, 3), "smt2_bytes": v.size})
     if not rep.errors and rep.ok_paths and reach < 1:
       errors.append(f"harness={rep.name} vacuous: no path end is satisfiable ({rep.paths} paths)")
+  # one finding per failing obligation: its other failing paths are listed in the same replay file
+  grouped = {}
+  for f in findings:
+    base = re.sub(r"\[path[0-9]+\]$", "", f.key)
+    g = grouped.get(base)
+    if g is None:
+      grouped[base] = f
+      f.replay["failing_paths"] = [f.key]
+    else:
+      g.replay["failing_paths"].append(f.key)
+      if len(g.replay.setdefault("other_models", [])) < 5:
+        g.replay["other_models"].append(f.replay.get("model"))
+      if f.reproduced and not g.reproduced:
+        f.replay["failing_paths"] = g.replay["failing_paths"]
+        f.replay["other_models"] = g.replay.get("other_models", [])
+        grouped[base] = f
+  findings = list(grouped.values())
   if n_ob == 0 and not errors:
     errors.append("zero obligations generated")
   xres = _finish_rewrite_crosscheck(xc)
